@@ -509,7 +509,7 @@ Definition ex_r2 : result :=
      r_aggs := [([107%N], [[]; [121%N]])]; r_dirs := [([98%N], [101%N])] |}.
 
 (* interleaved outside the critical section, worker 1 first inside it *)
-Definition ex_sched : list nat := [0; 1; 1; 0] ++ repeat 1 12 ++ repeat 0 12.
+Definition ex_sched : list nat := [0; 1; 1; 0] ++ repeat 1 14 ++ repeat 0 14.
 
 Example lint_run_exists :
   exists st, complete lupd lput reference_lint_prog 2 (fun i => nth i [ex_r1; ex_r2] empty_result)
